@@ -176,7 +176,13 @@ fn gen_lambda(pr: &mut Prng, g: Grp) -> String {
         match pr.below(7) {
             5 | 6 => crate::world_grp::special_fq(pr),
             0 => q - 1u32,
-            1 => BigUint::from(2u32),
+            1 => {
+                if pr.chance(1, 2) {
+                    BigUint::from(2u32)
+                } else {
+                    BigUint::one()
+                }
+            }
             _ => (from_be(&pr.bytes(32)) % (q - 1u32)) + 1u32,
         }
     };
